@@ -1,6 +1,6 @@
 \* emission (thorough): 4 temperatures, 10 kind pairs x 2 constructions, every behaviour of up to 3 calls
 CONSTANTS NT = 4  NV = 1  MaxLevel = 3
-  KindChoices <- McKindsEmit  TempChoices <- McTempsEmit4b  LinkPairs <- McLinks  RampSteps <- McRamp
+  KindChoices <- McKindsEmit  TempChoices <- McTempsEmit4b  LinkPairs <- McLinks  RampSteps <- McRamp  AuxChoices <- McAuxByKind
 ACTION_CONSTRAINT Emit
 INVARIANT EmitState
 INIT Init
@@ -10,6 +10,7 @@ VIEW View
 INVARIANT TypeOK
 INVARIANT LinksAcyclic
 INVARIANT PathIndependent
+INVARIANT AuxScaleWithDensities
 INVARIANT DensityShrinksBySquare
 INVARIANT DimensionLaw
 INVARIANT AreaGrowsBySquare
